@@ -2236,6 +2236,7 @@ impl Monitor {
                 }
                 None
             }
+            Ev::FaultSites { .. } => None,
             Ev::Exhausted => {
                 self.stop = true;
                 self.facts.foreign = Some("callback budget exhausted".into());
